@@ -1,3 +1,3 @@
 import CobaVerif.Driver.Loop
--- stub: replaced when the C17 model exists
-def main : IO Unit := Coba.J.runLoop (fun _ => .error "C17 driver not implemented")
+import CobaVerif.Driver.C17
+def main : IO Unit := Coba.J.runLoop Coba.C17.Driver.handle
